@@ -5,7 +5,8 @@
       (users: or by a user admin of the group);
    C. an accepted never-seen room: every entry's author is an administrator of the parsed history at
       the entry's date, and the room decides what its rows grant;
-   D. closed witnesses of the four known-finding classes. *)
+   D. closed witnesses of the three open known-finding classes and of the repaired one.
+   State of /repo: after 83dc3ea (oldest-first export) and 85b1827 (prepare_new_auth). *)
 From Coq Require Import Permutation.
 From DV Require Import RightsSpec RightsP RoomNode RoomNodeP Run_C07.
 
@@ -436,11 +437,33 @@ Proof.
   intros HR. induction l as [|x tl IH]; cbn [all_admin_rights]; intros H; [constructor|].
   apply andb_true_iff in H. destruct H as [Ha Ht]. constructor; [rewrite <- (Rep_is_admin evs r _ _ HR); exact Ha|auto].
 Qed.
+Lemma all_uadmin_or_admin_sound evs r a l :
+  Rep evs r -> all_uadmin_or_admin_users r a l = true ->
+  Forall (fun x => can_admin_users a (un_author x) (un_date x) || admin_at evs (un_author x) (un_date x) = true) l.
+Proof.
+  intros HR. induction l as [|x tl IH]; cbn [all_uadmin_or_admin_users]; intros H; [constructor|].
+  apply andb_true_iff in H. destruct H as [Ha Ht]. constructor; [rewrite <- (Rep_is_admin evs r _ _ HR); exact Ha|auto].
+Qed.
+Lemma all_admin_users_sound evs r l :
+  Rep evs r -> all_admin_users r l = true -> Forall (fun x => admin_at evs (un_author x) (un_date x) = true) l.
+Proof.
+  intros HR. induction l as [|x tl IH]; cbn [all_admin_users]; intros H; [constructor|].
+  apply andb_true_iff in H. destruct H as [Ha Ht]. constructor; [rewrite <- (Rep_is_admin evs r _ _ HR); exact Ha|auto].
+Qed.
+
+(* a group that is new to the peer (as of 85b1827): the row, its rights and its user-admin entries by
+   administrators, its users by a user admin of the group (as the group itself defines them) or an
+   administrator *)
+Definition new_group_entitled_upd (evs : list event) (g : anode) : Prop :=
+  admin_at evs (an_author g) (an_date g) = true /\
+  Forall (fun x => admin_at evs (rn_author x) (rn_date x) = true) (an_rnodes g) /\
+  Forall (fun x => admin_at evs (un_author x) (un_date x) = true) (an_anodes g) /\
+  exists a, parse_auth g = POk a /\
+    Forall (fun x => can_admin_users a (un_author x) (un_date x) || admin_at evs (un_author x) (un_date x) = true) (an_unodes g).
+
 Lemma check_new_auths_sound evs r old l b :
   Rep evs r -> check_new_auths r old l = POk b ->
-  Forall (fun g => existsb (fun o => N.eqb (an_id o) (an_id g)) old = false ->
-                   admin_at evs (an_author g) (an_date g) = true /\
-                   Forall (fun x => admin_at evs (rn_author x) (rn_date x) = true) (an_rnodes g)) l.
+  Forall (fun g => existsb (fun o => N.eqb (an_id o) (an_id g)) old = false -> new_group_entitled_upd evs g) l.
 Proof.
   intros HR. revert b. induction l as [|g tl IH]; cbn [check_new_auths]; intros b H; [constructor|].
   destruct (existsb (fun o => N.eqb (an_id o) (an_id g)) old) eqn:Ho.
@@ -448,11 +471,15 @@ Proof.
   - destruct (is_admin r (an_author g) (an_date g)) eqn:Ha; [|discriminate].
     unfold pbind in H. destruct (prepare_new_auth r g) as [[]|] eqn:Hp; [|discriminate].
     destruct (check_new_auths r old tl) as [b2|] eqn:Hc; [|discriminate].
-    constructor; [|eapply IH; eauto]. intros _. split; [rewrite <- (Rep_is_admin evs r _ _ HR); exact Ha|].
-    unfold prepare_new_auth, pbind in Hp. destruct (parse_auth g); [|discriminate].
-    destruct (negb (all_uadmin_users a (an_unodes g))); [discriminate|].
-    destruct (negb (all_admin_rights r (an_rnodes g))) eqn:Hr; [discriminate|].
-    apply negb_false_iff in Hr. eapply all_admin_rights_sound; eauto.
+    constructor; [|eapply IH; eauto]. intros _. unfold new_group_entitled_upd.
+    split; [rewrite <- (Rep_is_admin evs r _ _ HR); exact Ha|].
+    unfold prepare_new_auth, pbind in Hp. destruct (parse_auth g) as [a|]; [|discriminate].
+    destruct (negb (all_admin_users r (an_anodes g))) eqn:H1; [discriminate|].
+    destruct (negb (all_uadmin_or_admin_users r a (an_unodes g))) eqn:H2; [discriminate|].
+    destruct (negb (all_admin_rights r (an_rnodes g))) eqn:H3; [discriminate|].
+    apply negb_false_iff in H1, H2, H3.
+    split; [eapply all_admin_rights_sound; eauto|]. split; [eapply all_admin_users_sound; eauto|].
+    exists a. split; [reflexivity|eapply all_uadmin_or_admin_sound; eauto].
 Qed.
 
 (* THE entitlement theorem of the update path (for every room held, every candidate):
@@ -467,10 +494,10 @@ Theorem update_entitled evs r old cand b res :
      user admin of the group or an administrator *)
   (exists r1, Rep evs1 r1 /\
      forall o, In o (rmn_gnodes old) -> find_auth r1 (an_id o) <> None -> has_entitled evs1 r1 o (rmn_gnodes res)) /\
-  (* groups new to the peer: the group row and its rights by administrators *)
+  (* groups new to the peer: row, rights and user-admin entries by administrators, users by a user
+     admin of the group or an administrator *)
   Forall (fun g => existsb (fun o => N.eqb (an_id o) (an_id g)) (rmn_gnodes old) = false ->
-                   admin_at evs1 (an_author g) (an_date g) = true /\
-                   Forall (fun x => admin_at evs1 (rn_author x) (rn_date x) = true) (an_rnodes g)) (rmn_gnodes res) /\
+                   new_group_entitled_upd evs1 g) (rmn_gnodes res) /\
   (* and the room that results decides exactly what the rows kept grant *)
   exists r', parse_room res = POk r' /\ forall probes, decisions r' probes = flat_map (decide_spec (evs_of_node res)) probes.
 Proof.
@@ -491,13 +518,6 @@ Proof.
 Qed.
 
 (* ------------------------------------------------------------------ C. a room never seen before *)
-Lemma all_admin_users_sound evs r l :
-  Rep evs r -> all_admin_users r l = true -> Forall (fun x => admin_at evs (un_author x) (un_date x) = true) l.
-Proof.
-  intros HR. induction l as [|x tl IH]; cbn [all_admin_users]; intros H; [constructor|].
-  apply andb_true_iff in H. destruct H as [Ha Ht]. constructor; [rewrite <- (Rep_is_admin evs r _ _ HR); exact Ha|auto].
-Qed.
-
 Definition new_group_entitled (evs : list event) (g : anode) : Prop :=
   admin_at evs (an_author g) (an_date g) = true /\
   Forall (fun x => admin_at evs (un_author x) (un_date x) = true) (an_unodes g) /\
@@ -571,7 +591,7 @@ Definition wk2 : c07case :=
   CPrep None
         (RM_ 1 1000 1000 1 [E_ 1 32 100 1000 1; E_ 1 32 900 5000 3]
                         [w_admin; U_ 900 5000 3 3 true] [E_ 1 33 10 1000 1] [w_g10 [] []]) wp.
-(* class 3: own user-admin entry, then own user entry, inside a group new to the peer *)
+(* former class 3 (repaired by 85b1827): own user-admin entry, then own user entry, inside a group new to the peer *)
 Definition wk3 : c07case :=
   CPrep (Some w_base)
         (w_later_g (w_g11 [U_ 901 5000 3 3 true] [U_ 902 5000 3 5 true]
@@ -590,7 +610,9 @@ Definition accepted_and_fails (c : c07case) (k : Z) : Prop :=
   known_C07 c = [k] /\ hd 0 (run_C07 c) = 1 /\ spec_C07 c (run_C07 c) = false.
 Lemma refuted_k1 : accepted_and_fails wk1 1. Proof. vm_compute. auto. Qed.
 Lemma refuted_k2 : accepted_and_fails wk2 2. Proof. vm_compute. auto. Qed.
-Lemma refuted_k3 : accepted_and_fails wk3 3. Proof. vm_compute. auto. Qed.
+(* the witness of the repaired class 3 is refused now (site 41), the oracle holds on it *)
+Lemma repaired_k3 : known_C07 wk3 = [] /\ run_C07 wk3 = [141] /\ spec_C07 wk3 (run_C07 wk3) = true.
+Proof. vm_compute. auto. Qed.
 Lemma refuted_k4 : accepted_and_fails wk4 4. Proof. vm_compute. auto. Qed.
 Lemma nonvacuous_k0 :
   known_C07 wk0 = [] /\ hd 0 (run_C07 wk0) = 1 /\ spec_C07 wk0 (run_C07 wk0) = true /\
@@ -610,5 +632,5 @@ Definition uadmin_after (c : c07case) (k : key) (d : Z) : option bool :=
 Lemma attacker_gains :
   admin_after wk0 3%N 6000 = Some false /\
   admin_after wk1 3%N 6000 = Some true /\ admin_after wk2 3%N 6000 = Some true /\ admin_after wk4 3%N 6000 = Some true /\
-  uadmin_after wk0 3%N 6000 = Some false /\ uadmin_after wk3 3%N 6000 = Some true.
+  uadmin_after wk0 3%N 6000 = Some false /\ uadmin_after wk3 3%N 6000 = None.
 Proof. vm_compute. repeat split; reflexivity. Qed.
